@@ -18,6 +18,8 @@ import Rpki.Proofs.RtaDerLemmas
 import Rpki.Proofs.TalLemmas
 import Rpki.Gen.BerEq
 import Rpki.Proofs.BerMono
+import Rpki.Gen.BerLemmas
+import Rpki.Gen.BerLemmas2
 namespace Rpki.Props.C04
 set_option autoImplicit false
 open Rpki.Der
@@ -262,5 +264,42 @@ theorem der_values_are_read_in_ber :
     (∀ c x, Manifest.bitStringTake c = some x → Manifest.bitStringTakeM true c = some x) :=
   ⟨readLen_mono, readTlv_mono, takeOptCons_mono, takeOptCons_absent_mono, takeOptPrim_mono, takeOptPrim_absent_mono,
    skipOne_mono, takeOptBool_mono, bitStringTake_mono⟩
+
+/-- **`SignedMessageCrl::verify_not_revoked` and `SignedAttrs::encode_verify` after `SignedMessage::decode` in either
+mode** (`ber = true`: `strict = false`).  The lemmas behind this are the DER lemmas restated and re-proved for both
+modes by the generator (`Gen/BerLemmas.lean`): the captured revocation list went through the counting pass with the
+mode's own entry reader, so the later walk over it with the same reader cannot fail; the signed attributes parse,
+with the protocol content type and the returned digest, and are at most 65535 octets. -/
+theorem sigmsg_octets_cannot_panic_either_mode (ber : Bool) (b : Bytes) (m : SigMsgDer.SigMsgD)
+    (h : SigMsgDer.decodeSigMsgM ber b = some m) :
+    (∃ l, SigMsgDer.msgRevokedSerialsM ber m.crl.revoked = some l) ∧
+    (∃ st, SigObj.parseAttrsM ber false m.attrs = some (Consts.oidProtocolContentType, m.messageDigest, st)) ∧
+    (∃ msg, SigObj.encodeVerify m.attrs = some msg) := by
+  obtain ⟨n, hn⟩ := SigMsgDer.decodeSigMsg_revokedM ber b m h
+  obtain ⟨items, hi, _, _⟩ :=
+    capture_iterate_parity (SigMsgDer.takeOptMsgEntryM ber) (fun _ => true) m.crl.revoked.length m.crl.revoked 0 n hn
+  obtain ⟨st, hp⟩ := SigMsgDer.decodeSigMsg_specM ber b m h
+  exact ⟨⟨items.map (·.serial), by unfold SigMsgDer.msgRevokedSerialsM; rw [hi]; rfl⟩, ⟨st, hp⟩,
+    relaxed_encode_verify_cannot_panic ber false m.attrs _ _ _ hp⟩
+
+/-- **Signed objects (ROA, ASPA, manifest, generic) decoded in either mode**: the signed attributes parse to the
+returned content type, digest and signing time, `SignedAttrs::encode_verify` cannot reach its `panic!`, and the
+resources of the embedded certificate are canonical chains (what the block iterators, `asn_count` and the coverage
+checks rely on).  `Gen/BerLemmas2.lean`: the DER lemmas re-proved for both modes on top of the hand-proved facts that
+the mode-parametrized readers hand on octets of their input (`Proofs/BerSub.lean`). -/
+theorem sigobj_octets_either_mode (ber : Bool) (b : Bytes) (hb : AllBytes b) (o : CmsDer.SigObjD)
+    (h : CmsDer.decodeSigObjM ber b = some o) :
+    SigObj.parseAttrsM ber true o.attrs = some (o.contentType, o.messageDigest, o.signingTime) ∧
+    (∃ msg, SigObj.encodeVerify o.attrs = some msg) ∧
+    CertDer.ClaimCanon IpDer.maxAddr o.cert.v4 ∧ CertDer.ClaimCanon IpDer.maxAddr o.cert.v6 ∧
+    CertDer.ClaimCanon AsDer.maxAs o.cert.asn := by
+  obtain ⟨hp, cc, rest, hcc, hc⟩ := CmsDer.decodeSigObj_specM ber b o hb h
+  exact ⟨hp, relaxed_encode_verify_cannot_panic ber true o.attrs _ _ _ hp, CertDer.takeCert_canonM ber cc o.cert rest hcc hc⟩
+
+/-- the skip machine in either mode: what it accepts leaves a proper suffix, and its loop counter never decides -/
+theorem skip_machine_either_mode (ber : Bool) (b : Bytes) :
+    (∀ rest, CertDer.skipOneM ber b = some rest → rest <:+ b ∧ rest.length + 2 ≤ b.length) ∧
+    (∀ k, CertDer.skipLoopM ber (b.length + 1 + k) b [] = CertDer.skipOneM ber b) :=
+  ⟨fun rest h => CertDer.skipOne_suffixM ber b rest h, fun k => CertDer.skipOne_fuelM ber b k⟩
 
 end Rpki.Props.C04
